@@ -743,3 +743,63 @@ Proof.
       apply IH; try assumption. apply Hpre; [left; reflexivity|]. unfold is_default_via. rewrite Ed, El. reflexivity.
     + apply IH; assumption.
 Qed.
+
+(* ================================================================== 7. the target argument *)
+
+(* what ParseIPNet refuses: every CIDR whose mask is not 4 bytes (all IPv6 prefixes, the IPv4-mapped
+   form included), every address that is not Is4, everything that does not parse *)
+Definition non_ipv4_text (x : target_text) : Prop :=
+  match x with
+  | TxtCIDR _ maskb => len maskb <> 4
+  | TxtAddr is4 _ => is4 = false
+  | TxtJunk => True
+  end.
+
+Lemma parse_ipnet_refuses x : non_ipv4_text x <-> parse_ipnet x = Err ErrTarget.
+Proof.
+  destruct x as [ipb maskb|[|] addr|]; cbn.
+  - destruct (len maskb =? 4) eqn:E; [apply Z.eqb_eq in E|apply Z.eqb_neq in E]; split; intros H;
+      try reflexivity; try discriminate; try assumption. contradiction.
+  - split; discriminate.
+  - split; reflexivity.
+  - split; intros; [reflexivity|exact I].
+Qed.
+
+Lemma parse_ipnet_total x : non_ipv4_text x \/ exists t, parse_ipnet x = Ok t /\ len (t_mask t) = 4.
+Proof.
+  destruct x as [ipb maskb|[|] addr|]; cbn.
+  - destruct (len maskb =? 4) eqn:E; [apply Z.eqb_eq in E|apply Z.eqb_neq in E].
+    + right. eexists. split; [reflexivity|exact E].
+    + left. exact E.
+  - right. eexists. split; reflexivity.
+  - left. reflexivity.
+  - left. exact I.
+Qed.
+
+(* a refused target ends the command before any interface or source is selected: the arp command
+   fails with ErrInvalidAddr whatever the host looks like, the ip-level commands fail with it unless
+   the --iface lookup, which they do first, already failed *)
+Lemma refused_target strict cfg x ov :
+  non_ipv4_text x ->
+  run_arp_gen strict cfg (Some x) ov = Err ErrTarget /\
+  run_gen strict cfg (Some x) ov =
+    match resolve_iface cfg ov with Err e => Err e | Ok _ => Err ErrTarget end.
+Proof.
+  intros H. apply parse_ipnet_refuses in H. unfold run_arp_gen, run_gen. rewrite H.
+  split; [reflexivity|]. destruct (resolve_iface cfg ov); reflexivity.
+Qed.
+
+(* an accepted target is handed to the selection unchanged *)
+Lemma accepted_target strict cfg x t ov :
+  parse_ipnet x = Ok t ->
+  run_gen strict cfg (Some x) ov = choose_gen strict cfg (Some t) ov /\
+  run_arp_gen strict cfg (Some x) ov = choose_arp_gen strict cfg (Some t) ov.
+Proof.
+  intros H. unfold run_arp_gen, run_gen. rewrite H. split; [|reflexivity].
+  unfold choose_gen. destruct (resolve_iface cfg ov); reflexivity.
+Qed.
+
+Lemma run_no_target strict cfg ov :
+  run_gen strict cfg None ov = choose_gen strict cfg None ov /\
+  run_arp_gen strict cfg None ov = choose_arp_gen strict cfg None ov.
+Proof. split; reflexivity. Qed.
